@@ -16,6 +16,21 @@ with tempfile.TemporaryDirectory() as d:
         if not any(c.tag in ("failure", "error", "skipped") for c in tc):
             passed.add(tc.get("classname") + "::" + tc.get("name"))
 missing = [t for t in base["stable_pass"] if t not in passed]
+# the suite has a few randomised tests that fail about 1 run in 40 (also at the pinned commit): re-run the missing ones twice
+for _ in range(2):
+    if not missing:
+        break
+    still = []
+    for t in missing:
+        cls, name = t.split("::")
+        path = cls.rsplit(".", 1)[0].replace(".", "/") + ".py::" + cls.rsplit(".", 1)[1] + "::" + name
+        env = dict(os.environ); env["PYTHONPATH"] = src; env["OMP_NUM_THREADS"] = "1"
+        r = subprocess.run(["/venv/bin/python", "-m", "pytest", "-q", "-p", "no:cacheprovider", path], cwd=src, env=env, stdout=subprocess.DEVNULL, stderr=subprocess.DEVNULL)
+        if r.returncode != 0:
+            still.append(t)
+        else:
+            print("  flaky (passed on re-run):", t)
+    missing = still
 print("stable_pass=%d passed_now=%d missing=%d" % (len(base["stable_pass"]), len(passed), len(missing)))
 for m in missing: print("  FAILS:", m)
 sys.exit(1 if missing else 0)
